@@ -314,6 +314,14 @@ func runRT(c rtCase) pbt.Result {
 	if len(ids) == len(c.Protos) && !bytes.Equal(b, b2) {
 		return merge(res, pbt.Failf("two construction orders of %+v encode differently: %x vs %x", c.Protos, b, b2))
 	}
+	// somebody else derives a context of their own for one of the codes used here (an application that knows
+	// that protocol): the default context keeps treating it as unknown
+	for _, p := range c.Protos {
+		if p.Kind == "unknown" {
+			_ = metadata.Default.WithProtocol(multicodec.Code(p.Code), func() metadata.Protocol { return &metadata.Bitswap{} })
+			break
+		}
+	}
 	// decoding returns equal metadata in which every protocol is retrievable by ID
 	dec := metadata.Default.New()
 	if err := dec.UnmarshalBinary(b); err != nil {
@@ -398,7 +406,7 @@ func merge(base, f pbt.Result) pbt.Result {
 
 func TestC11_RoundTrip(t *testing.T) {
 	pbt.Run(t, pbt.Config{Prop: "C11", Unit: "TestC11_RoundTrip",
-		Rule: "multisets of 1..6 protocols (bitswap, gateway, graphsync-filecoin with drawn piece CID and flags, unknown codes 0..2^62 with payloads 0..900 B, one case in ten with payloads near 700 / 1000 / 1023 B so that the encoding reaches several KiB, repeated IDs) in two drawn construction orders; oracle: MarshalBinary = concatenation of independently specified protocol encodings in ascending ID order (equal IDs in any order), decode is Equal, every ID retrievable, decode->encode identity; a returned encoding does not change when a sibling metadata (one protocol altered) is encoded afterwards. Non-trivial: >=3 protocols, or a protocol after the CBOR-encoded one, or an unknown payload >127 B; distinct by case.",
+		Rule: "multisets of 1..6 protocols (bitswap, gateway, graphsync-filecoin with drawn piece CID and flags, unknown codes 0..2^62 with payloads 0..900 B, one case in ten with payloads near 700 / 1000 / 1023 B so that the encoding reaches several KiB, repeated IDs) in two drawn construction orders; oracle: MarshalBinary = concatenation of independently specified protocol encodings in ascending ID order (equal IDs in any order), decode is Equal, every ID retrievable, decode->encode identity; a context derived with WithProtocol for one of the unknown codes does not change what the default context does; a returned encoding does not change when a sibling metadata (one protocol altered) is encoded afterwards. Non-trivial: >=3 protocols, or a protocol after the CBOR-encoded one, or an unknown payload >127 B; distinct by case.",
 	}, genRT, runRT)
 }
 
